@@ -339,3 +339,162 @@ def _ndim_of(ex, st, s):
 
 
 spec('NdimOf', z3=_ndim_of, py=lambda ex, st, s: 0)
+
+
+# ---------------------------------------------------------------------------------------------
+# Concrete evaluators (replay / run-time contract sweep): the same definitions computed with the
+# machine's doubles on one concrete input.  `form` fixes how a squared difference is rounded in the
+# engine under test (Python: pow(x, 2); C: x * x) -- both are exact on the dyadic test values.
+import math as _math  # noqa: E402
+
+
+class PyCtx:
+    tag = 'dtwctx-py'
+
+    def __init__(self, a1, r, a2, c, w, pen, mstep, p1b, p2b, metric, nd, form):
+        self.a1, self.r, self.a2, self.c = a1, r, a2, c
+        self.w, self.pen, self.mstep, self.p1b, self.p2b, self.metric, self.nd, self.form = w, pen, mstep, p1b, p2b, metric, nd, form
+        self.memo = {}
+
+    def point(self, a, i):
+        if self.nd == 0:
+            return a[i]
+        x = a[i]
+        if isinstance(x, (list, tuple)):
+            return list(x)
+        return a[i * self.nd:(i + 1) * self.nd]
+
+    def sq(self, x):
+        return x ** 2 if self.form == 'py' else x * x
+
+    def cost(self, i, j):
+        x, y = self.point(self.a1, i), self.point(self.a2, j)
+        if self.nd == 0:
+            return self.sq(x - y) if self.metric == 0 else abs(x - y)
+        t = 0.0
+        for k in range(self.nd):
+            t = t + self.sq(x[k] - y[k])
+        return t if self.metric == 0 else _math.sqrt(t)
+
+    def band(self, i, j):
+        r, c, w = self.r, self.c, self.w
+        return (i - max(0, r - c) - w < j < i + max(0, c - r) + w) and 0 <= j < c and 0 <= i < r
+
+    def allowed(self, i, j):
+        return self.band(i, j) and not (self.cost(i, j) > self.mstep)
+
+    def W(self, i, j):
+        inf = float('inf')
+        if i <= 0:
+            return 0.0 if 0 <= j <= self.p2b else inf
+        if j <= 0:
+            return 0.0 if (j == 0 and i <= self.p1b) else inf
+        k = (i, j)
+        if k not in self.memo:
+            # bottom-up to keep the recursion shallow
+            for a in range(1, i + 1):
+                for b in range(1, self.c + 1):
+                    if (a, b) in self.memo:
+                        continue
+                    if self.allowed(a - 1, b - 1):
+                        v = self.cost(a - 1, b - 1) + min(self.W(a - 1, b - 1), self.W(a - 1, b) + self.pen,
+                                                          self.W(a, b - 1) + self.pen)
+                    else:
+                        v = inf
+                    self.memo[(a, b)] = v
+            if k not in self.memo:      # column beyond c
+                return inf
+        return self.memo[k]
+
+    def wrowmin(self, row, lo, hi):
+        v = self.W(row, lo)
+        for col in range(lo + 1, hi):
+            v = min(v, self.W(row, col))
+        return v
+
+    def psicol(self, p1e, k):
+        r, c, w = self.r, self.c, self.w
+        v = float('inf')
+        for i in range(0, k):
+            je = min(c, i + max(0, c - r) + w)
+            if p1e != 0 and je == c and r - 1 - i <= p1e:
+                v = min(v, self.W(i + 1, c))
+        return v
+
+    def dend(self, p1e, p2e):
+        r, c = self.r, self.c
+        if p1e == 0 and p2e == 0:
+            return self.W(r, c)
+        if p2e != 0:
+            return min(self.wrowmin(r, c - p2e, c + 1), self.psicol(p1e, r))
+        return min(self.W(r, c), self.psicol(p1e, r))
+
+    def foldmin(self, acc, row, lo, hi):
+        for col in range(lo, hi):
+            x = self.W(row, col)
+            if x < acc:
+                acc = x
+        return acc
+
+
+def _py_series(ex, st, s):
+    from specs.bounds import _py_items
+    items = _py_items(ex, st, s)
+    return items
+
+
+def _py_len(ex, st, s):
+    o = st.heap[s.oid]
+    if getattr(o, 'shape', None) is not None:
+        return o.shape[0]
+    return len(_py_series(ex, st, s))
+
+
+def _py_ctx(ex, st, s1, s2, window, penalty, max_step, psi_1b, psi_2b, metric, ndim=0):
+    r, c = _py_len(ex, st, s1), _py_len(ex, st, s2)
+    w = max(r, c) if window is None else window
+    adjf = (lambda x: x * x) if metric == 0 else (lambda x: x)
+    pen = 0.0 if not penalty else adjf(penalty)
+    mstep = float('inf') if not max_step else adjf(max_step)
+    return PyCtx(_py_series(ex, st, s1), r, _py_series(ex, st, s2), c, w, pen, mstep, psi_1b, psi_2b, metric, ndim, 'py')
+
+
+def _py_ctx_c(ex, st, s1, l1, s2, l2, settings, metric, ndim=0):
+    f = st.heap[settings.oid].fields
+    r, c = l1, l2
+    w = max(r, c) if f['window'] == 0 else f['window']
+    adjf = (lambda x: x * x) if metric == 0 else (lambda x: x)
+    pen = adjf(f['penalty'])
+    mstep = float('inf') if f['max_step'] == 0 else adjf(f['max_step'])
+    return PyCtx(_py_series(ex, st, s1), r, _py_series(ex, st, s2), c, w, pen, mstep, f['psi_1b'], f['psi_2b'], metric, ndim, 'c')
+
+
+def _pc(ex):
+    c = ex.spec_env.get('ctx')
+    if not isinstance(c, PyCtx):
+        raise Unsupported('no concrete DTW context bound')
+    return c
+
+
+def _py_ndim_of(ex, st, s):
+    o = st.heap[s.oid]
+    if getattr(o, 'shape', None) is not None:
+        return o.shape[1]
+    return getattr(o, 'nd', 0) or 0
+
+
+from dvc.contracts import SPECS as _SPECS  # noqa: E402
+_SPECS['DTWctx'].py = _py_ctx
+_SPECS['DTWctxC'].py = _py_ctx_c
+_SPECS['W'].py = lambda ex, st, i, j: _pc(ex).W(i, j)
+_SPECS['Pen'].py = lambda ex, st: _pc(ex).pen
+_SPECS['MaxStep'].py = lambda ex, st: _pc(ex).mstep
+_SPECS['Wnd'].py = lambda ex, st: _pc(ex).w
+_SPECS['InBand'].py = lambda ex, st, i, j: _pc(ex).band(i, j)
+_SPECS['Cost'].py = lambda ex, st, i, j: _pc(ex).cost(i, j)
+_SPECS['vsqrt_if'].py = lambda ex, st, metric, x: _math.sqrt(x) if metric == 0 else x
+_SPECS['PsiCol'].py = lambda ex, st, p1e, k: _pc(ex).psicol(p1e, k)
+_SPECS['WRowMin'].py = lambda ex, st, row, lo, hi: _pc(ex).wrowmin(row, lo, hi)
+_SPECS['Dend'].py = lambda ex, st, p1e, p2e: _pc(ex).dend(p1e, p2e)
+_SPECS['FoldMin'].py = lambda ex, st, acc, row, lo, hi: _pc(ex).foldmin(acc, row, lo, hi)
+_SPECS['NdimOf'].py = _py_ndim_of
